@@ -101,7 +101,7 @@ func (m c10mux) Setup(w *e.World) error {
 	if err != nil {
 		return err
 	}
-	iw.stats = w.Stats
+	iw.stats, iw.w = w.Stats, w
 	w.Ext["ibc"] = iw
 	return nil
 }
@@ -161,7 +161,11 @@ func (m c10mux) Gen(w *e.World, r *e.RNG) e.Step {
 		if r.Chance(0.12) {
 			v = -1 - r.Intn(2) // -1: not an address, -2: a module account that may not receive
 		}
-		return e.Step{K: "ibc", Op: "xfer", A: u, B: v, N: []int64{c, fam, r.Range(1, f["max_timeout"])}, S: []string{amt.String()}}
+		via := int64(0)
+		if r.Chance(0.3) {
+			via = 1 // through the ICS-20 precompile, as an Ethereum transaction
+		}
+		return e.Step{K: "ibc", Op: "xfer", A: u, B: v, N: []int64{c, fam, r.Range(1, f["max_timeout"]), via}, S: []string{amt.String()}}
 	case 1:
 		return e.Step{K: "ibc", Op: "relay", N: []int64{pick(unrecv)}}
 	case 2:
@@ -338,7 +342,18 @@ func (m c10mux) Exec(w *e.World, st *e.Step) *e.Violation {
 		if amt.Sign() <= 0 {
 			return nil
 		}
-		p, err := iw.send(c, fi, u, v, amt, uint64(st.NArg(2)))
+		var p *ibcPacket
+		var err error
+		if st.NArg(3) == 1 {
+			p, err = iw.sendViaPrecompile(c, fi, u, v, amt, uint64(st.NArg(2)))
+			harness(err)
+			w.Stats.Op("ibc_xfer_via_precompile", err == nil)
+			if err == nil {
+				w.Stats.Probe("ibc_transfer_through_ics20_precompile")
+			}
+		} else {
+			p, err = iw.send(c, fi, u, v, amt, uint64(st.NArg(2)))
+		}
 		w.Stats.Op("ibc_xfer", err == nil)
 		post := iw.snap()
 		if err != nil {
